@@ -913,13 +913,16 @@ class DefaultDialect(Dialect):
                 )
 
         dbapi_connection = connection.connection.dbapi_connection
+        # the reset is registered first: if the driver fails half way
+        # through applying a characteristic, whatever was already changed on
+        # the DBAPI connection is still put back when it is checked in
+        connection.connection._connection_record.finalize_callback.append(
+            functools.partial(self._reset_characteristics, characteristics)
+        )
         for _, characteristic, value in characteristic_values:
             characteristic.set_connection_characteristic(
                 self, connection, dbapi_connection, value
             )
-        connection.connection._connection_record.finalize_callback.append(
-            functools.partial(self._reset_characteristics, characteristics)
-        )
 
     def _reset_characteristics(self, characteristics, dbapi_connection):
         for characteristic_name in characteristics:
